@@ -359,6 +359,7 @@ type dbEnv struct {
 	name    string
 	ctrl    *database.Controller
 	st      storage.Interface
+	wipes   int
 }
 
 var (
@@ -428,6 +429,11 @@ func (e *dbEnv) wipe() error {
 	case *bbolt.BBolt:
 		return s.VerifWipe()
 	case *badger.Badger:
+		// deleting keys leaves tombstones and old versions behind, which slow badger down more and more: drop everything now and then
+		e.wipes++
+		if e.wipes%128 == 0 {
+			return s.VerifDropAll()
+		}
 		return s.VerifWipe()
 	case *fstree.FSTree:
 		base := s.VerifBasePath()
@@ -1524,7 +1530,7 @@ func main() {
 			opsCache[k] = o
 			return o
 		}
-		nSeeds := vlib.Pick(c, 4, len(seeds))
+		nSeeds := len(seeds)
 
 		if c.IsShard() {
 			watchdog()
@@ -1532,7 +1538,7 @@ func main() {
 			return
 		}
 
-		c.Rule("breadth-first search over histories of database.Interface operations on the real code, per configuration backend {hashmap,bbolt,fstree; thorough: badger} x shadow-delete {off,on} x cache {none, read cache size 2, delayed write cache size 2 (hashmap, bbolt)} and per initial storage content (empty, one live, one shadow-deleted, one expired record; thorough: one with relative expiry); " +
+		c.Rule("breadth-first search over histories of database.Interface operations on the real code, per configuration backend {hashmap,bbolt,fstree; thorough: badger} x shadow-delete {off,on} x cache {none, read cache size 2, delayed write cache size 2 (hashmap, bbolt)} and per initial storage content (empty, one live, one shadow-deleted, one expired record, one with a relative expiry); " +
 			"alphabet per configuration: Get, Put (typed struct / wrapped JSON twins, 2 contents), PutNew (record with stale metadata), Resave (Get then Put of the same object), Delete, SetAbsoluteExpiry (past, +10 s), SetRelativateExpiry(10), PutMany (2 batches of two records, one deleted), Purge (2 queries), 10 s / 20 s pass on the manual clock, MaintainRecordStates (threshold now / now-15 s), Maintain, FlushCache and Flush = one DelayedCacheWriter run ended by its context (delayed writes only), Put of an already deleted record over 4 keys sharing prefixes and a path separator; " +
 			"every history runs on a wiped database through a fresh Interface and on a map[string]entry model; after the last step Exists+Get of all 4 keys and 19 queries (5 key prefixes; all 18 operators; and/or/not nested to depth 2) are compared; states de-duplicated on (model, raw storage dump, ARC cache lists and entries, delayed write set); " +
 			"non-trivial = distinct reached states holding at least two records or at least one deleted/expired record. "+
